@@ -586,6 +586,74 @@ def syscall_crash_probe(bare, stale, other_tmp):
     return out
 
 
+def unreadable_probe(mode):
+    """The pid file of a LIVE master that the starting user cannot read (another user's file, mode 0600 / 000, in a directory both
+    can write to): Pidfile.create() must refuse (it cannot know the file is stale) and leave the file alone.  The second instance
+    is a forked child that drops to uid 65534.  -> dict"""
+    import shutil as _sh
+    import lib_c20 as L20
+    d = L20.scratch_dir("c17-unr-")
+    out = {"mode": mode}
+    try:
+        os.chmod(d, 0o777)
+        path = os.path.join(d, "gunicorn.pid")
+        live = os.getpid()
+        with open(path, "w") as fh:
+            fh.write("%d\n" % live)
+        os.chmod(path, mode)
+        r, w = os.pipe()
+        pid = os.fork()
+        if pid == 0:
+            try:
+                os.close(r)
+                os.setgroups([])
+                os.setresgid(65534, 65534, 65534)
+                os.setresuid(65534, 65534, 65534)
+                from gunicorn.pidfile import Pidfile
+                try:
+                    Pidfile(path).create(os.getpid())
+                    os.write(w, b"created")
+                except BaseException as e:
+                    os.write(w, ("refused:" + type(e).__name__).encode())
+            finally:
+                os._exit(0)
+        os.close(w)
+        os.waitpid(pid, 0)
+        out["second_instance"] = os.read(r, 200).decode()
+        os.close(r)
+        try:
+            with open(path) as fh:
+                out["file_after"] = fh.read()
+        except OSError as e:
+            out["file_after"] = "<%s>" % type(e).__name__
+        out["live"] = live
+    finally:
+        _sh.rmtree(d, ignore_errors=True)
+    return out
+
+
+def unreadable_layer(ctx):
+    if os.geteuid() != 0:
+        ctx.extra["unreadable_layer"] = "skipped: needs root to become a second user"
+        return
+    nbad = 0
+    for mode in (0o600, 0o000, 0o200):
+        res = unreadable_probe(mode)
+        ctx.count_case(("unreadable-pidfile", mode), True)
+        ctx.hist("unreadable_pidfile", "mode %03o" % mode)
+        ctx.extra.setdefault("unreadable_pidfile", []).append(res)
+        bad = []
+        if not res.get("second_instance", "").startswith("refused"):
+            bad.append("a second instance (uid 65534) was allowed to create the pid file although it exists, belongs to another user "
+                       "(mode %03o, unreadable) and names the live process %d" % (mode, res.get("live", -1)))
+        if res.get("file_after") != "%d\n" % res.get("live", -1):
+            bad.append("the unreadable pid file of the live master %d was replaced: it now holds %r" % (res.get("live", -1), res.get("file_after")))
+        for b in bad[:1]:
+            nbad += 1
+            ctx.violation(b, {"kind": "unreadable-pidfile", "mode": mode})
+    ctx.log("unreadable pid file layer: 3 modes, second instance as another user; %d failures" % nbad)
+
+
 def syscall_crash_layer(ctx):
     nbad = 0
     for bare in (False, True):
@@ -654,6 +722,7 @@ def run(ctx):
             break
     arbiter_layer(ctx)
     syscall_crash_layer(ctx)
+    unreadable_layer(ctx)
     # step 3: model vs implementation
     bad = ctx.correspond("hist", HEADER, cases, shard=300)
     if bad:
@@ -707,6 +776,10 @@ def search(ctx, seeds):
 
 
 def replay(rep):
+    if rep.get("kind") == "unreadable-pidfile":
+        res = unreadable_probe(rep["mode"])
+        print(res)
+        return 0 if (res.get("second_instance", "").startswith("refused") and res.get("file_after") == "%d\n" % res["live"]) else 1
     if rep.get("kind") == "syscall-crash":
         res = syscall_crash_probe(*rep["args"])
         print(res)
